@@ -255,7 +255,7 @@ def run_case(case):
 
 def main(run: core.Run, only=None):
     quick = run.tier == "quick"
-    fluids = FLUIDS[:3] if quick else FLUIDS
+    fluids = FLUIDS[1:3] if quick else FLUIDS
     cases = []
     for method in GEOS:
         for gi in range(3):
